@@ -339,6 +339,40 @@ func formatFamily(seed int64, n int, out *json.Encoder) {
 		}
 		oe.Cmp = r
 		emitFmt(out, oe)
+		// keys of the other integer widths (and of any other type without an order of its own) are ordered by their encoded form
+		{
+			r2 := rand.New(rand.NewSource(seed*1000003 + int64(c)*7919 + int64(bf))) // (a generator of its own: the other events stay as they are)
+			mk := func() (interface{}, string) {
+				v := r2.Intn(400) - 150
+				switch r2.Intn(6) {
+				case 0:
+					return int32(v * 1000), "int32"
+				case 1:
+					return int16(v), "int16"
+				case 2:
+					return int8(v % 128), "int8"
+				case 3:
+					return uint8(v & 0xff), "uint8"
+				case 4:
+					return uint16(v & 0xffff), "uint16"
+				}
+				return uint32(v&0xffff) * 70000, "uint32"
+			}
+			a, ta := mk()
+			b, tb := mk()
+			for tb != ta {
+				b, tb = mk()
+			}
+			ja, _ := json.Marshal(a)
+			jb, _ := json.Marshal(b)
+			me := fmtEvent{Op: "order", KT: "marshaled", GoT: ta, A: toInts(ja), B: toInts(jb), Res: "ok"}
+			rr, err := cmp(a, b)
+			if err != nil {
+				me.Res = err.Error()
+			}
+			me.Cmp = rr
+			emitFmt(out, me)
+		}
 		if classOf(goT) == "int" {
 			// the whole range of the type
 			wide := func() (interface{}, int, []int) {
